@@ -11,6 +11,7 @@ package main
 
 import (
 	"bytes"
+	"encoding/json"
 	"errors"
 	"fmt"
 	"io"
@@ -59,7 +60,7 @@ type universe struct {
 }
 
 func identityUniverse(n int) universe {
-	u := universe{names: []string{"a/x", "b/x", "a/y"}[:n]}
+	u := universe{names: []string{"a/x", "b/x", "a/y", "a/z"}[:n]}
 	u.prefixes = []prefixSpec{{"", nil}, {"a", nil}, {"b", nil}}
 	for i, nm := range u.names {
 		u.prefixes[0].under = append(u.prefixes[0].under, i)
@@ -73,7 +74,7 @@ func identityUniverse(n int) universe {
 }
 
 func dockerTagUniverse(n int) universe {
-	u := universe{names: []string{"r:t1", "q:t1", "r:t2"}[:n]}
+	u := universe{names: []string{"r:t1", "q:t1", "r:t2", "r:t3"}[:n]}
 	// the prefix form build-index's tagserver passes: <repo>/_manifests/tags
 	u.prefixes = []prefixSpec{{"", nil}, {"r/_manifests/tags", nil}, {"q/_manifests/tags", nil}}
 	for i, nm := range u.names {
@@ -88,7 +89,7 @@ func dockerTagUniverse(n int) universe {
 }
 
 func shardedUniverse(n int) universe {
-	u := universe{names: []string{"aa01", "bb03", "aa02"}[:n]}
+	u := universe{names: []string{"aa01", "bb03", "aa02", "aa04"}[:n]}
 	u.prefixes = []prefixSpec{{"", nil}, {"sha256/aa", nil}, {"sha256/bb", nil}}
 	for i, nm := range u.names {
 		u.prefixes[0].under = append(u.prefixes[0].under, i)
@@ -101,7 +102,10 @@ func shardedUniverse(n int) universe {
 	return u
 }
 
-var contents = []string{"", "x", "yy"}
+// contents: empty, one byte, two bytes (two download chunks in the fake S3);
+// binary (NUL, non-UTF-8, newline) in the thorough tier.
+var contents3 = []string{"", "x", "yy"}
+var contents4 = []string{"", "x", "yy", "\x00\xff\n"}
 
 // ------------------------------------------------------------ listing modes
 
@@ -135,8 +139,10 @@ type built struct {
 
 type backendSpec struct {
 	label string // search name
-	kind  string // fingerprint prefix: root causes live in one client each
-	uni   universe
+	// contents: the content alphabet (default contents3)
+	contents []string
+	kind     string // fingerprint prefix: root causes live in one client each
+	uni      universe
 	// tracksSize: Stat reports the stored size (sqlbackend.Stat always
 	// answers size 0: it does not track sizes).
 	tracksSize bool
@@ -247,15 +253,28 @@ func specs(thorough bool) []*backendSpec {
 		{label: "shadow(s3 docker_tag, sql)", kind: "shadow", uni: dt, tracksSize: true, modes: all, build: buildShadow(buildS3(namepath.DockerTag, 0, false), buildSQL)},
 	}
 	if thorough {
+		id4 := identityUniverse(4)
+		all4 := append([]listMode{unpaginated}, pagedModes(1, 2, 3, 4)...)
 		s = append(s,
 			&backendSpec{label: "s3 identity short-pages", kind: "s3", uni: id, tracksSize: true, modes: all, build: buildS3(namepath.Identity, 0, true)},
 			&backendSpec{label: "s3 identity list_max_keys=1", kind: "s3", uni: id, tracksSize: true, modes: all, build: buildS3(namepath.Identity, 1, false)},
-			&backendSpec{label: "s3 docker_tag", kind: "s3", uni: dt, tracksSize: true, modes: all, build: buildS3(namepath.DockerTag, 0, false)},
+			&backendSpec{label: "s3 docker_tag binary", kind: "s3", uni: dt, contents: contents4, tracksSize: true, modes: all, build: buildS3(namepath.DockerTag, 0, false)},
 			&backendSpec{label: "s3 sharded_docker_blob list_max_keys=2", kind: "s3", uni: sh, tracksSize: true, modes: all, build: buildS3(namepath.ShardedDockerBlob, 2, false)},
+			&backendSpec{label: "s3 identity 4 names list_max_keys=3", kind: "s3", uni: id4, tracksSize: true, modes: all4, build: buildS3(namepath.Identity, 3, false)},
+			&backendSpec{label: "s3 identity 4 names short-pages list_max_keys=3", kind: "s3", uni: id4, tracksSize: true, modes: all4, build: buildS3(namepath.Identity, 3, true)},
+			&backendSpec{label: "testfs identity 4 names", kind: "testfs", uni: id4, tracksSize: true, modes: u, emptyListMayFail: true, build: buildTestfs("root", namepath.Identity)},
+			&backendSpec{label: "sql 4 names", kind: "sql", uni: dockerTagUniverse(4), tracksSize: false, modes: []listMode{unpaginated, pagedModes(2)[0]}, catalog: true, build: buildSQL},
 			&backendSpec{label: "testfs sharded_docker_blob", kind: "testfs", uni: sh, tracksSize: true, modes: u, emptyListMayFail: true, build: buildTestfs("blobs", namepath.ShardedDockerBlob)},
+			&backendSpec{label: "testfs identity binary", kind: "testfs", uni: id, contents: contents4, tracksSize: true, modes: u, emptyListMayFail: true, build: buildTestfs("blobs", namepath.Identity)},
+			&backendSpec{label: "sql binary", kind: "sql", uni: dt, contents: contents4, tracksSize: false, modes: []listMode{unpaginated, pagedModes(1)[0]}, catalog: true, build: buildSQL},
 			&backendSpec{label: "shadow(sql, testfs docker_tag)", kind: "shadow", uni: dt, tracksSize: false, modes: []listMode{unpaginated, pagedModes(1)[0]}, catalog: true, build: buildShadow(buildSQL, buildTestfs("tags", namepath.DockerTag))},
 			&backendSpec{label: "shadow(testfs identity, s3 identity)", kind: "shadow", uni: id, tracksSize: true, modes: u, emptyListMayFail: true, build: buildShadow(buildTestfs("root", namepath.Identity), buildS3(namepath.Identity, 0, false))},
 		)
+	}
+	for _, x := range s {
+		if x.contents == nil {
+			x.contents = contents3
+		}
 	}
 	return s
 }
@@ -279,6 +298,8 @@ type sys struct {
 	model  map[string]string
 	rewrit map[string]bool // name was uploaded more than once
 	obs    string
+	// initFail: the freshly built (empty) store already violates the contract
+	initFail *bfs.Fail
 }
 
 func newSys(spec *backendSpec) (*sys, error) {
@@ -288,8 +309,13 @@ func newSys(spec *backendSpec) (*sys, error) {
 	}
 	s := &sys{spec: spec, b: b, model: map[string]string{}, rewrit: map[string]bool{}}
 	if err := s.observe(); err != nil {
-		b.cleanup()
-		return nil, fmt.Errorf("initial state: %v", err)
+		f, isFail := err.(*bfs.Fail)
+		if !isFail {
+			b.cleanup()
+			return nil, fmt.Errorf("initial state: %v", err)
+		}
+		// a violation in the empty store: reported by main before the search
+		s.initFail = f
 	}
 	return s, nil
 }
@@ -299,7 +325,7 @@ func (s *sys) Close() { s.b.cleanup() }
 func (s *sys) Ops() []string {
 	var ops []string
 	for i := range s.spec.uni.names {
-		for c := range contents {
+		for c := range s.spec.contents {
 			ops = append(ops, fmt.Sprintf("up %d %d", i, c))
 		}
 	}
@@ -317,11 +343,14 @@ func (s *sys) Ops() []string {
 func (s *sys) fp(clause string) string { return s.spec.kind + ": " + clause }
 
 func (s *sys) Apply(op string) error {
+	if s.initFail != nil {
+		return s.initFail
+	}
 	f := strings.Fields(op)
 	arg := func(i int) int { n, _ := strconv.Atoi(f[i]); return n }
 	switch f[0] {
 	case "up":
-		name, content := s.spec.uni.names[arg(1)], contents[arg(2)]
+		name, content := s.spec.uni.names[arg(1)], s.spec.contents[arg(2)]
 		// bytes.Reader: shadowbackend requires an io.ReadSeeker
 		if err := s.b.c.Upload(ns, name, bytes.NewReader([]byte(content))); err != nil {
 			return fmt.Errorf("Upload(%q,%q): %v", name, content, err)
@@ -572,50 +601,62 @@ func (s *sys) Key() string { return bfs.SortedKey(s.model) + "|" + s.obs }
 
 // ------------------------------------------------------------ main
 
-func main() {
-	if os.Getenv("C37_PROF") != "" {
-		for _, spec := range specs(false) {
-			t0 := time.Now()
-			for i := 0; i < 50; i++ {
-				b, err := spec.build()
-				if err != nil {
-					panic(err)
-				}
-				b.cleanup()
-			}
-			t1 := time.Now()
-			sy, err := newSys(spec)
-			if err != nil {
-				panic(err)
-			}
-			t2 := time.Now()
-			for i := 0; i < 50; i++ {
-				if err := sy.observe(); err != nil {
-					panic(err)
-				}
-			}
-			t3 := time.Now()
-			sy.Apply("up 0 1")
-			sy.Apply("up 1 2")
-			t4 := time.Now()
-			for i := 0; i < 50; i++ {
-				if err := sy.observe(); err != nil {
-					panic(err)
-				}
-			}
-			fmt.Println(spec.label, "build", t1.Sub(t0)/50, "observe-empty", t3.Sub(t2)/50, "observe-2", time.Since(t4)/50)
-			sy.Close()
-		}
-		return
+// replay re-runs the case of a replay file (search label + history) without
+// the explorer and reports what it finds.
+func replay(run *evid.Run, path string) {
+	raw, err := os.ReadFile(path)
+	if err != nil {
+		run.Fatal(err)
 	}
+	var doc struct {
+		Case struct {
+			Search  string   `json:"search"`
+			History []string `json:"history"`
+		} `json:"case"`
+	}
+	if err := json.Unmarshal(raw, &doc); err != nil {
+		run.Fatal(err)
+	}
+	for _, spec := range specs(true) {
+		if spec.label != doc.Case.Search {
+			continue
+		}
+		sy, err := newSys(spec)
+		if err != nil {
+			run.Fatal(err)
+		}
+		defer sy.Close()
+		run.Eval(1)
+		run.Distinct("replay")
+		run.Distinct(spec.label)
+		for i, op := range doc.Case.History {
+			if err := sy.Apply(op); err != nil {
+				f, isFail := err.(*bfs.Fail)
+				if !isFail {
+					run.Fatal(err)
+				}
+				run.Violation(f.Fingerprint, map[string]interface{}{"search": spec.label, "history": doc.Case.History[:i+1], "msg": f.Msg})
+				break
+			}
+		}
+		run.Finish()
+	}
+	run.Fatal(fmt.Errorf("replay: unknown search %q", doc.Case.Search))
+}
+
+func main() {
 	run := evid.New("C37", "model_checking")
-	run.Rule = "per backend configuration: BFS to fixpoint over all histories of Upload(name, content) / Download(name) / Stat(name) / List(prefix, mode) on the real client (names: 2-3 per pather, contents {\"\", \"x\", \"yy\"}, prefixes {\"\", common directory, single-name directory}, modes unpaginated and paginated with MaxKeys 1..3, tokens followed to the end); state = map name->content plus every API observation; after every operation all observations are compared with the model. distinct = distinct reachable states per configuration."
-	run.Assume("small-scope: 2-3 names per pather, contents of length 0..2, page sizes 1..3")
+	run.Rule = "per backend configuration: BFS to fixpoint over all histories of Upload(name, content) / Download(name) / Stat(name) / List(prefix, mode) on the real client (3 names per pather, 4 in some thorough S3 configurations; contents {\"\", \"x\", \"yy\"} plus a binary one in thorough; prefixes {\"\", common directory, single-name directory}, modes unpaginated and paginated with MaxKeys 1..3 (1..4 with 4 names), tokens followed to the end); state = map name->content plus every API observation; after every operation all observations are compared with the model. distinct = distinct reachable states per configuration."
+	run.Assume("small-scope: 3-4 names per pather, contents of length 0..3, page sizes 1..4, S3 list_max_keys in {1,2,3,default 250}")
 	run.Assume("trusted base: the in-memory S3 (checks/c37/fake_s3.go: sorted keys, string prefix, MaxKeys, continuation tokens, short pages, leading '/' of a key dropped, chunked out-of-order WriteAt) stands in for S3 + aws-sdk-go; testfs runs over loopback HTTP (httptest), sql on in-memory sqlite")
 	run.Assume("prefixes are whole path components and never equal to a name (where directory-style and string-prefix listing could disagree the statement does not decide)")
 	run.Assume("sqlbackend List(\"\") is documented to answer <repo>:dummy per repository; oracle there: every repository with a stored name exactly once. sqlbackend does not track sizes (Stat size not compared)")
 	run.Assume("a listing with nothing to list may fail on testfs (directory does not exist yet); not decided by the statement, counted in empty_list_errors")
 
+	if rp := run.ReplayPath(); rp != "" {
+		replay(run, rp)
+		return
+	}
 	deadline := time.Now().Add(45 * time.Second)
 	if run.Thorough() {
 		deadline = time.Now().Add(12 * time.Minute)
@@ -623,6 +664,18 @@ func main() {
 	for _, spec := range specs(run.Thorough()) {
 		spec := spec
 		t0 := time.Now()
+		// the empty store is a state too: check it before searching from it
+		sy0, err := newSys(spec)
+		if err != nil {
+			run.Fatal(err)
+		}
+		f0 := sy0.initFail
+		sy0.Close()
+		if f0 != nil {
+			run.Eval(1)
+			run.Violation(f0.Fingerprint, map[string]interface{}{"search": spec.label, "history": []string{}, "msg": f0.Msg})
+			continue
+		}
 		// the export-file S3 constructor and s3backend.NewClient must give
 		// clients that behave the same on a fixed history
 		var keys [2]string
